@@ -74,8 +74,8 @@ class Ctx:
         cmd += (extra or [])
         cmd.append(module + ".tla")
         env = dict(os.environ)
-        if java_opts:
-            env["JAVA_TOOL_OPTIONS"] = java_opts
+        # TLC's own temporary directories (tlc-*) go to the scratch directory of this run, not to /tmp
+        env["JAVA_TOOL_OPTIONS"] = ((java_opts + " ") if java_opts else "") + "-Djava.io.tmpdir=" + wd
         t = time.time()
         outpath = os.path.join(wd, "tlc.out")
         with open(outpath, "w") as fh:
